@@ -309,16 +309,14 @@ package caldav
 //@ func caldav.encodeCalendarReq(c) (p, err)
 //@   requires R1: c != nil
 //@   ensures R1e: err == nil && calDataCarried(p, *c) && len(p.Raw) == 3
-//@ func caldav.decodeCalendarObjectList(ms) (cos, err)
-//@   trusted C10
-//@   requires R1: ms != nil
+//@ -- (the list decoder is under contract with the client functions below)
 //@ func caldav.(*Client).QueryCalendar(c, ctx, calendar, query) (cos, err)
 //@   reveal propRelC
-//@   requires R1: c != nil && c.ic != nil && query != nil && sentCount == 0
+//@   requires R1: c != nil && clientOK(c.ic) && query != nil && sentCount == 0
 //@   ensures Q1: sentCount == 1 && sentMethod == "REPORT" && sentPath == calendar
 //@   ensures Q2: let w : dynPtr(sentBody, "*calendarQuery") in w != nil && compLevel(w.Filter.CompFilter, query.CompFilter) && calDataCarried(w.Prop, query.CompRequest)
 //@ func caldav.(*Client).MultiGetCalendar(c, ctx, path, multiGet) (cos, err)
-//@   requires R1: c != nil && c.ic != nil && multiGet != nil && sentCount == 0
+//@   requires R1: c != nil && clientOK(c.ic) && multiGet != nil && sentCount == 0
 //@   ensures G1: sentCount == 1 && sentMethod == "REPORT" && sentPath == path
 //@   ensures G2: let w : dynPtr(sentBody, "*calendarMultiget") in w != nil && calDataCarried(w.Prop, multiGet.CompRequest)
 //@   |   && (len(multiGet.Paths) == 0 ? (len(w.Hrefs) == 1 && w.Hrefs[0].Path == path)
@@ -600,3 +598,75 @@ package caldav
 //@   allocates
 //@   ensures V1: mutations == old(mutations) && epCalls == old(epCalls) && epCode == old(epCode) && epVal == old(epVal)
 //@   ensures V2: err != nil ==> beErr(err) || fromEnv(err)
+
+//@ -- ---------------------------------------------------------------------------------------
+//@ -- The client (C14: failures are reported with their status, failed responses are never data; C10: what the
+//@ -- answer's headers and properties say is what the caller gets)
+//@ spec cclientOKCal(c *Client) bool = c != nil && clientOK(c.ic) && hasPrefix(c.ic.endpoint.Path, "/")
+//@ func caldav.populateCalendarObject(co, h) (err)
+//@   requires R1: co != nil
+//@   assigns H_caldav_CalendarObject_Path, H_caldav_CalendarObject_ETag, H_caldav_CalendarObject_ContentLength, H_caldav_CalendarObject_ModTime
+//@   -- Go-quoted entity tag, URL path of Location, HTTP date: each accepted back as the server formats it (C16 round trips)
+//@   ensures P1: err == nil && hget(hv, h, "ETag") != "" ==> unquoteOk(hget(hv, h, "ETag")) && co.ETag == unquoteVal(hget(hv, h, "ETag"))
+//@   ensures P2: err == nil && hget(hv, h, "ETag") == "" ==> co.ETag == old(co.ETag)
+//@   ensures P3: err == nil && hget(hv, h, "Location") != "" ==> urlParseOk(hget(hv, h, "Location")) && co.Path == urlParsePath(hget(hv, h, "Location"))
+//@   ensures P4: err == nil && hget(hv, h, "Location") == "" ==> co.Path == old(co.Path)
+//@   ensures P5: err == nil && hget(hv, h, "Last-Modified") != "" ==> timeParseOk(http.TimeFormat, hget(hv, h, "Last-Modified")) && ns(co.ModTime) == timeParseNs(http.TimeFormat, hget(hv, h, "Last-Modified"))
+//@   ensures P6: (hget(hv, h, "ETag") != "" && !unquoteOk(hget(hv, h, "ETag"))) || (hget(hv, h, "Location") != "" && !urlParseOk(hget(hv, h, "Location"))) ==> err != nil
+//@   ensures P7: forall q *CalendarObject :: q != co ==> q.Path == old(q.Path) && q.ETag == old(q.ETag)
+//@ func caldav.(*Client).GetCalendarObject(c, ctx, path) (co, err)
+//@   requires R1: cclientOKCal(c)
+//@   allocates
+//@   assigns ghost:data, ghost:doCalls, ghost:lastReq, ghost:nrCalls, ghost:nrMethod, ghost:nrURL, ghost:nrReq, ghost:hv, ghost:rstatus
+//@   ensures E1: doCalls == old(doCalls) ==> co == nil && err != nil
+//@   ensures E2: doCalls == old(doCalls) + 1 && lastErr(c.ic) != nil ==> co == nil && err == lastErr(c.ic)
+//@   ensures E2b: doCalls == old(doCalls) + 1 && lastErr(c.ic) == nil && lastStatus(c.ic) / 100 != 2 ==> co == nil && dynHTTP(err) && httpCode(err) == lastStatus(c.ic)
+//@   ensures E3: doCalls == old(doCalls) || doCalls == old(doCalls) + 1
+//@   ensures G1: err != nil ==> co == nil
+//@   ensures G2: doCalls == old(doCalls) + 1 ==> nrMethod == "GET" && (!hasPrefix(resolved(c.ic, path), "//") ==> urlParseOk(nrURL) && urlParsePath(nrURL) == resolved(c.ic, path))
+//@ func caldav.(*Client).PutCalendarObject(c, ctx, path, cal) (co, err)
+//@   requires R1: cclientOKCal(c)
+//@   allocates
+//@   assigns ghost:data, ghost:doCalls, ghost:lastReq, ghost:nrCalls, ghost:nrMethod, ghost:nrURL, ghost:nrReq, ghost:hv, ghost:rstatus
+//@   ensures E1: doCalls == old(doCalls) ==> co == nil && err != nil
+//@   ensures E2: doCalls == old(doCalls) + 1 && lastErr(c.ic) != nil ==> co == nil && err == lastErr(c.ic)
+//@   ensures E2b: doCalls == old(doCalls) + 1 && lastErr(c.ic) == nil && lastStatus(c.ic) / 100 != 2 ==> co == nil && dynHTTP(err) && httpCode(err) == lastStatus(c.ic)
+//@   ensures E3: doCalls == old(doCalls) || doCalls == old(doCalls) + 1
+//@   ensures U1: err != nil ==> co == nil
+//@   ensures U2: doCalls == old(doCalls) + 1 ==> nrMethod == "PUT" && hget(hv, lastReq.Header, "Content-Type") == "text/calendar" && (!hasPrefix(resolved(c.ic, path), "//") ==> urlParseOk(nrURL) && urlParsePath(nrURL) == resolved(c.ic, path))
+//@   -- the answer's Location / ETag are handed back; without a Location the object keeps the request path
+//@   ensures U3: err == nil ==> co != nil && (let h : doResp(c.ic.http, lastReq).Header in (hget(hv, h, "Location") == "" ? co.Path == path : co.Path == urlParsePath(hget(hv, h, "Location"))) && (hget(hv, h, "ETag") != "" ==> co.ETag == unquoteVal(hget(hv, h, "ETag"))))
+//@ func caldav.(*Client).FindCalendarHomeSet(c, ctx, principal) (p, err)
+//@   requires R1: cclientOKCal(c)
+//@   allocates
+//@   assigns ghost:data, ghost:doCalls, ghost:lastReq, ghost:sentCount, ghost:sentMethod, ghost:sentPath, ghost:sentBody, ghost:hv
+//@   ensures E1: doCalls == old(doCalls) ==> p == "" && err != nil
+//@   ensures E2: doCalls == old(doCalls) + 1 && (lastErr(c.ic) != nil || lastStatus(c.ic) != 207) ==> p == "" && err != nil && (lastErr(c.ic) == nil && lastStatus(c.ic) / 100 != 2 ==> httpCode(err) == lastStatus(c.ic))
+//@   ensures E3: doCalls == old(doCalls) || doCalls == old(doCalls) + 1
+//@   ensures H1: err != nil ==> p == ""
+
+//@ -- one object per response, in order, under the response's href; a failed response or a failed mandatory property
+//@ -- aborts with an error (C14), it never becomes an object
+//@ func caldav.decodeCalendarObjectList(ms) (addrs, err)
+//@   requires R1: ms != nil
+//@   allocates
+//@   ensures L1: err == nil ==> len(addrs) == len(ms.Responses) && (forall j int :: 0 <= j && j < len(addrs) ==> !respFailedV(ms.Responses[j]) && len(ms.Responses[j].Hrefs) == 1 && addrs[j].Path == ms.Responses[j].Hrefs[0].Path)
+//@   ensures L2: err != nil ==> addrs == nil
+//@   ensures L3: (exists j int :: 0 <= j && j < len(ms.Responses) && respFailedV(ms.Responses[j])) ==> err != nil
+//@   loop 1 invariant I1: fresh(addrs) && len(addrs) == #i && len(ms.Responses) == old(len(ms.Responses)) && (forall j int :: 0 <= j && j < len(ms.Responses) ==> ms.Responses[j] == old(ms.Responses[j]))
+//@   loop 1 invariant I2: forall j int :: 0 <= j && j < #i ==> !respFailedV(ms.Responses[j]) && len(ms.Responses[j].Hrefs) == 1 && addrs[j].Path == ms.Responses[j].Hrefs[0].Path
+//@ func caldav.(*Client).FindCalendars(c, ctx, calendarHomeSet) (l, err)
+//@   requires R1: cclientOKCal(c)
+//@   allocates
+//@   assigns ghost:data, ghost:doCalls, ghost:lastReq, ghost:sentCount, ghost:sentMethod, ghost:sentPath, ghost:sentBody, ghost:hv
+//@   ensures E1: doCalls == old(doCalls) ==> l == nil && err != nil
+//@   ensures E2: doCalls == old(doCalls) + 1 && (lastErr(c.ic) != nil || lastStatus(c.ic) != 207) ==> l == nil && err != nil && (lastErr(c.ic) == nil && lastStatus(c.ic) / 100 != 2 ==> httpCode(err) == lastStatus(c.ic))
+//@   ensures E3: doCalls == old(doCalls) || doCalls == old(doCalls) + 1
+//@   ensures F1: err != nil ==> l == nil
+//@   -- any failed response aborts the listing
+//@   ensures F2: err == nil ==> (let d : decoded(xmlDecoderOf(doResp(c.ic.http, lastReq).Body), "internal.MultiStatus") in len(l) <= len(d.Responses) && (forall j int :: 0 <= j && j < len(d.Responses) ==> !respFailedV(d.Responses[j])))
+//@   ensures F3: doCalls == old(doCalls) + 1 ==> sentMethod == "PROPFIND" && sentPath == calendarHomeSet && hget(hv, lastReq.Header, "Depth") == "1"
+//@   loop 1 invariant I1: fresh(l) && len(l) <= #i && ms != nil && *ms == decoded(xmlDecoderOf(doResp(c.ic.http, lastReq).Body), "internal.MultiStatus") && doCalls == old(doCalls) + 1 && lastErr(c.ic) == nil && lastStatus(c.ic) == 207
+//@   |   && sentMethod == "PROPFIND" && sentPath == calendarHomeSet && hget(hv, lastReq.Header, "Depth") == "1"
+//@   loop 1 invariant I2: forall j int :: 0 <= j && j < #i ==> !respFailedV(ms.Responses[j])
+//@   loop 2 invariant J1: fresh(compNames)
